@@ -23,6 +23,10 @@ def run(ctx):
         ns += r18a(ctx, f)
         ns += r18b(ctx, f)
     ctx.floor('R18a+b', ns, 8)
+    nc = 0
+    for q in ('Choose_interactive_OneOutOfTwo', 'Choose_interactive_OneOutOfN', 'Choose_interactive_OneOutOfN_optimized'):
+        nc += r18c(ctx, prog.fn(CLS + '::' + q, 0))
+    ctx.floor('R18c', nc, 9)
 
 
 def r18e(ctx):
@@ -201,3 +205,108 @@ EXPLANATION = ("Static structural check of the oblivious-transfer senders and ch
                "randomness sampled inside the loop that computes it, and different messages use disjoint randomness. Correct decryption by "
                "the chooser and secrecy of the other messages are not decided.")
 ASSUMPTIONS = ["arrays are summarised per container", "sampler calls return independent values per call site and iteration"]
+
+
+def r18c(ctx, f):
+    """chooser index consistency: x = g^a and y = g^b are sent; the product a*b is hidden in the z-value
+    of the chosen index and nowhere else; the message is recovered as ENC[sigma] / w[sigma]^b with the
+    same index on both and the exponent of y."""
+    a = ctx.analysis(f)
+    T = a.T
+    key0 = 'R18c:' + f['q'].split('::')[-1]
+    n = 0
+    g = T.mk('this', 'g')
+    # (a) the two Diffie-Hellman shares
+    shares = []
+    for nid, ev in sorted(a.all_events('snd'), key=lambda x: (x[1][3], x[0])):
+        vn = T.node(ev[2])
+        if vn[0] == 'powm' and vn[1] == g and T.op(vn[2]) == 'rnd' and vn[2] not in shares:
+            shares.append(vn[2])
+    n += 1
+    if len(shares) < 2:
+        ctx.bad('R18c', key0 + ':shares', 'the chooser does not send two fresh values g^a, g^b', f)
+        return n
+    A, B = shares[0], shares[1]
+    ctx.ok('R18c', key0 + ':shares', 'g^a and g^b with independent fresh exponents are sent', f)
+    sig = [p for p in f['params'] if p['n'] and 'unsigned long' in p['t']][0]
+    sigma = T.mk('param', sig['n'])
+    outp = [p for p in f['params'] if p['t'] == '__mpz_struct *'][0]
+    # (b) the recovered message
+    n += 1
+    finals = []
+    for nid, ev in a.all_events('write'):
+        if ev[1] == ('v', outp['id'], outp['n']):
+            vn = T.node(ev[2])
+            if vn[0] == 'mod':
+                finals.append((nid, ev[2]))
+    bad = None
+    pairs = []
+    for nid, v in finals:
+        m = T.node(T.node(v)[1])
+        if m[0] != 'mul' or len(m) != 3:
+            bad = 'the message is not computed as ENC * (w^b)^-1'
+            break
+        inv = [x for x in m[1:] if T.op(x) == 'inv']
+        oth = [x for x in m[1:] if T.op(x) != 'inv']
+        if len(inv) != 1 or len(oth) != 1:
+            bad = 'the message is not computed as ENC * (w^b)^-1'
+            break
+        pw = T.node(T.node(inv[0])[1])
+        if pw[0] != 'powm' or pw[2] != B:
+            bad = 'the blinding is removed with an exponent other than b (the exponent of y = g^b)'
+            break
+        pairs.append((nid, pw[1], oth[0]))
+    if not finals:
+        bad = 'no assignment of the recovered message found'
+    (ctx.ok if bad is None else ctx.bad)('R18c', key0 + ':open', 'message = ENC / w^b with the exponent of y' if bad is None else bad, f)
+    # (c) same index for w and ENC
+    n += 1
+    wires = [T.mk('wire', k, name) for k, (line, name) in enumerate(a.wire_sites)]
+    badc = None
+    if any(T.op(a.strip_ix(w_, a.ix_loops(w_))) == 'wire' for nid, w_, e_ in pairs):
+        # 1-of-2: scalars read in the order w0, c0, w1, c1 -- the ciphertext belongs to the w read just before it
+        seenk = set()
+        for nid, w_, e_ in pairs:
+            wn, en = T.node(w_), T.node(e_)
+            if wn[0] != 'wire' or en[0] != 'wire' or en[1] != wn[1] + 1:
+                badc = 'a ciphertext is opened with the w-value of another message'
+            st = a.instate[nid]
+            ks = [T.node(fa) for fa in st.facts if T.node(fa)[0] == 'rel' and T.node(fa)[1] == '==' and sigma in (T.node(fa)[2], T.node(fa)[3])]
+            kv = [T.node(x)[1] for fa in ks for x in (fa[2], fa[3]) if T.is_int(x)]
+            if not kv or wn[0] != 'wire' or wn[1] != 2 * kv[0]:
+                badc = badc or 'the pair (w, ENC) that is opened is not the one of the chosen index'
+            seenk.update(kv)
+        if badc is None and seenk != {0, 1}:
+            badc = 'not both choices are opened'
+    else:
+        idx = {}
+        for nid, ev in a.all_events('index'):
+            if ev[1] is not None and ev[1][0] == 'v' and ev[2] is not None and T.op(ev[2]) != 'iv' and T.op(ev[2]) != 'int':
+                idx.setdefault(ev[1][2], set()).add(ev[2])
+        used = {k2: v2 for k2, v2 in idx.items() if v2}
+        if len(used) < 2 or any(v2 != {sigma} for v2 in used.values()):
+            badc = 'w and ENC are not both indexed with the chosen index sigma (%s)' % {k2: [T.show(x, 2) for x in v2] for k2, v2 in used.items()}
+    (ctx.ok if badc is None else ctx.bad)('R18c', key0 + ':index', 'w and ENC of the chosen index are combined' if badc is None else badc, f)
+    # (d) where the product a*b goes
+    n += 1
+    prod_nodes = []
+    for nid, ev in a.all_events('write'):
+        vn = T.node(ev[2])
+        if vn[0] == 'mod' and T.op(vn[1]) == 'mul' and set(T.node(vn[1])[1:]) == {A, B}:
+            prod_nodes.append((nid, ev))
+    badd = None
+    if not prod_nodes:
+        badd = 'the product a*b mod q is not computed'
+    else:
+        for nid, ev in prod_nodes:
+            st = a.instate[nid]
+            tied = [fa for fa in st.facts if T.node(fa)[0] == 'rel' and T.node(fa)[1] == '==' and sigma in (T.node(fa)[2], T.node(fa)[3])]
+            if tied:
+                continue
+            # optimised variant: one z-value g^(ab) / g^sigma
+            hid = any(T.contains(e2[2], lambda nn: nn[0] == 'inv') and any(T.node(x) == ('powm', g, sigma, T.mk('this', 'p')) for x in T.subterms(e2[2]))
+                      for n2, e2 in a.all_events('snd'))
+            if not hid:
+                badd = 'the product a*b is placed without reference to the chosen index'
+    (ctx.ok if badd is None else ctx.bad)('R18c', key0 + ':hide', 'a*b is hidden in the z-value of the chosen index' if badd is None else badd, f)
+    return n
